@@ -11,6 +11,10 @@ AST of the current source.  Writes HC/Extracted/ReqGlue.lean.  Used by tools/ext
   * HTTP/2 trailers: the `Trailers` branch of `H2Protocol.stream_send` (what it calls) and `H2Protocol._end_stream` (which h2
     call ends the stream with / without pending trailers, and whether that call carries END_STREAM)
         -> `trailersBranchCalls : List String`, `endStreamTest (n : Nat) : Bool`, `endWithTrailers`, `endWithoutTrailers : List String`
+  * `HTTPStream.handle(Request)`: which expressions of `event.raw_path` the scope's `raw_path`, `path` and `query_string` are
+    (followed through the local names bound in front of the scope literal)
+        -> `targetRawPath (raw : Bytes) : Bytes`, `targetQuery (raw : Bytes) : Bytes`   (`X.partition(b"?")` parts, translated;
+           `path` must be `unquote(<the raw_path expression>.decode("ascii"))`)
 A source shape the translator does not recognise is an EXTRACT-FAIL [ReqGlue] (the tie is reported broken)."""
 from __future__ import annotations
 
@@ -300,6 +304,83 @@ def run(src: Path, ex: Any) -> str:
         fail("h2Contents", str(e))
     except Exception as e:  # noqa
         fail("h2Contents", f"{type(e).__name__}: {e}")
+
+
+    # ---- HTTPStream.handle(Request): request target -> raw_path / path / query_string of the scope --------------------
+    try:
+        fn = find_def(parse(src / "protocol" / "http_stream.py"), "HTTPStream", "handle")
+        if fn is None:
+            raise Unsupported("HTTPStream.handle not found")
+        branch = None
+        for n in ast.walk(fn):
+            if isinstance(n, ast.If) and ast.unparse(n.test) == "isinstance(event, Request)":
+                branch = n
+        if branch is None:
+            raise Unsupported("no `isinstance(event, Request)` branch in HTTPStream.handle")
+        lits = [(i, st) for i, st in enumerate(branch.body) if isinstance(st, ast.Assign) and ast.unparse(st.targets[0]) == "self.scope"
+                and isinstance(st.value, ast.Dict)]
+        if len(lits) != 1:
+            raise Unsupported("not exactly one `self.scope = {…}` in the Request branch")
+        at, lit = lits[0]
+        entries = {k.value: v for k, v in zip(lit.value.keys, lit.value.values) if isinstance(k, ast.Constant)}
+        later = [ast.unparse(st.targets[0]) for st in ast.walk(fn) if isinstance(st, ast.Assign)
+                 and ast.unparse(st.targets[0]) in ("self.scope['raw_path']", "self.scope['path']", "self.scope['query_string']")]
+        if later:
+            raise Unsupported(f"{later} assigned outside the scope literal")
+        # local names bound (once, unconditionally) in front of the literal
+        env: Dict[str, Any] = {}
+        for st in branch.body[:at]:
+            if isinstance(st, ast.Assign) and len(st.targets) == 1:
+                t = st.targets[0]
+                if isinstance(t, ast.Name):
+                    env[t.id] = st.value
+                elif isinstance(t, ast.Tuple) and all(isinstance(e, ast.Name) for e in t.elts):
+                    for i, e in enumerate(t.elts):
+                        env[e.id] = ("item", st.value, i, len(t.elts))
+            elif any(isinstance(x, (ast.Name,)) and isinstance(x.ctx, ast.Store) for x in ast.walk(st)):
+                raise Unsupported(f"`{ast.unparse(st).splitlines()[0][:60]}` binds a name in front of the scope literal in a way this translator does not read")
+
+        def part(call: ast.AST, idx: int, width: int) -> str:
+            """`<X>.partition(b"c")` seen as a 3-tuple: item idx"""
+            if not (isinstance(call, ast.Call) and isinstance(call.func, ast.Attribute) and call.func.attr == "partition" and len(call.args) == 1
+                    and not call.keywords and isinstance(call.args[0], ast.Constant) and isinstance(call.args[0].value, bytes) and len(call.args[0].value) == 1
+                    and width == 3):
+                raise Unsupported(f"`{ast.unparse(call)[:80]}` is not `<bytes>.partition(b\"<one byte>\")`")
+            tup = f"(HC.Bytes.partitionB {call.args[0].value[0]} {texpr(call.func.value)})"
+            if idx == 0:
+                return f"{tup}.1"
+            if idx == 2:
+                return f"{tup}.2.2"
+            raise Unsupported("the separator item of a partition is used as a scope value")
+
+        def texpr(node: Any, depth: int = 0) -> str:
+            if depth > 8:
+                raise Unsupported("cyclic names")
+            if isinstance(node, tuple):
+                return part(node[1], node[2], node[3])
+            if ast.unparse(node) == "event.raw_path":
+                return "raw"
+            if isinstance(node, ast.Name) and node.id in env:
+                return texpr(env[node.id], depth + 1)
+            if isinstance(node, ast.Subscript) and isinstance(node.slice, ast.Constant) and isinstance(node.slice.value, int):
+                return part(node.value, node.slice.value % 3, 3)
+            raise Unsupported(f"`{ast.unparse(node)[:80]}` is not `event.raw_path` or a part of `<…>.partition(b\"?\")` of it")
+        for k in ("raw_path", "path", "query_string"):
+            if k not in entries:
+                raise Unsupported(f"scope literal without {k!r}")
+        raw_t, query_t = texpr(entries["raw_path"]), texpr(entries["query_string"])
+        pe = entries["path"]
+        ok = (isinstance(pe, ast.Call) and ast.unparse(pe.func) == "unquote" and len(pe.args) == 1 and not pe.keywords
+              and isinstance(pe.args[0], ast.Call) and isinstance(pe.args[0].func, ast.Attribute) and pe.args[0].func.attr == "decode"
+              and [ast.unparse(a) for a in pe.args[0].args] == ["'ascii'"] and not pe.args[0].keywords)
+        if not ok or texpr(pe.args[0].func.value) != raw_t:
+            raise Unsupported(f"scope['path'] is `{ast.unparse(pe)[:80]}`, not `unquote(<the raw_path expression>.decode('ascii'))`")
+        out.append(f"def targetRawPath (raw : HC.Bytes) : HC.Bytes :=\n  {raw_t}   -- scope[\"raw_path\"] = `{ast.unparse(entries['raw_path'])}` (scope[\"path\"] is its percent-decoded form)")
+        out.append(f"def targetQuery (raw : HC.Bytes) : HC.Bytes :=\n  {query_t}   -- scope[\"query_string\"] = `{ast.unparse(entries['query_string'])}`")
+    except Unsupported as e:
+        fail("targetRawPath/targetQuery", str(e))
+    except Exception as e:  # noqa
+        fail("targetRawPath/targetQuery", f"{type(e).__name__}: {e}")
 
     out += ["end HC.Extracted.ReqGlue", ""]
     return "\n".join(out)
